@@ -1,6 +1,7 @@
 package main
 
 import (
+	"errors"
 	"context"
 	"database/sql"
 	"fmt"
@@ -24,6 +25,11 @@ import (
 type fenceDriverAction struct {
 	name string
 	db   *sql.DB
+	// twoTx: confirm and cancel do their work in TWO transactions, one after the other
+	twoTx bool
+	// asText: the method reports what BeginTx answered as a text (an application that formats its errors, or whose
+	// business sits behind an RPC): the identity of the error is gone
+	asText bool
 }
 
 func (a *fenceDriverAction) bump(ctx context.Context, col string) (bool, error) {
@@ -40,21 +46,45 @@ func (a *fenceDriverAction) bump(ctx context.Context, col string) (bool, error) 
 func (a *fenceDriverAction) Prepare(ctx context.Context, params interface{}) (bool, error) {
 	return a.bump(ctx, "tries")
 }
-func (a *fenceDriverAction) Commit(ctx context.Context, bac *tm.BusinessActionContext) (bool, error) {
-	return a.bump(ctx, "confirms")
-}
-func (a *fenceDriverAction) Rollback(ctx context.Context, bac *tm.BusinessActionContext) (bool, error) {
-	ok, err := a.bump(ctx, "cancels")
+func (a *fenceDriverAction) phaseTwo(ctx context.Context, col string) (bool, error) {
+	ok, err := a.bump(ctx, col)
+	if err == nil && a.twoTx {
+		ok, err = a.bump(ctx, col)
+	}
+	if err != nil && a.asText {
+		return false, errors.New("business failed: " + err.Error())
+	}
 	if err != nil {
-		err = fmt.Errorf("cancel of %s: %w", a.name, err) // (wrapped, as applications do)
+		err = fmt.Errorf("%s of %s: %w", col, a.name, err) // (wrapped, as applications do)
 	}
 	return ok, err
+}
+func (a *fenceDriverAction) Commit(ctx context.Context, bac *tm.BusinessActionContext) (bool, error) {
+	return a.phaseTwo(ctx, "confirms")
+}
+func (a *fenceDriverAction) Rollback(ctx context.Context, bac *tm.BusinessActionContext) (bool, error) {
+	return a.phaseTwo(ctx, "cancels")
 }
 func (a *fenceDriverAction) GetActionName() string { return a.name }
 
 func runC06UnderRM(c *Ctx) {
 	Boot()
-	for i, seq := range []string{"PCC", "PCCC", "PRR", "R", "RR", "RP", "PCR", "PRC"} {
+	type variant struct {
+		seq           string
+		twoTx, asText bool
+	}
+	var variants []variant
+	for _, seq := range []string{"PCC", "PCCC", "PRR", "R", "RR", "RP", "PCR", "PRC"} {
+		variants = append(variants, variant{seq: seq})
+	}
+	for _, seq := range []string{"PC", "PCC", "PR", "PRR"} {
+		variants = append(variants, variant{seq: seq, twoTx: true})
+	}
+	for _, seq := range []string{"PCC", "PRR", "R", "RR"} {
+		variants = append(variants, variant{seq: seq, asText: true})
+	}
+	for i, v := range variants {
+		seq := v.seq
 		cid := fmt.Sprintf("fd-rm-%d", i)
 		if !c.Want(cid) {
 			continue
@@ -70,7 +100,7 @@ func runC06UnderRM(c *Ctx) {
 		if err != nil {
 			panic(err)
 		}
-		act := &fenceDriverAction{name: fmt.Sprintf("fdact%d", fenceDriverSeq), db: db}
+		act := &fenceDriverAction{name: fmt.Sprintf("fdact%d", fenceDriverSeq), db: db, twoTx: v.twoTx, asText: v.asText}
 		var answers []string
 		crash := safeCall(func() {
 			if _, err := tcc.NewTCCServiceProxy(act); err != nil {
@@ -130,13 +160,26 @@ func runC06UnderRM(c *Ctx) {
 		if crash != "" {
 			fail("crash", crash)
 		}
-		if confirms > 1 || cancels > 1 || tries > 1 {
+		if !v.twoTx && (confirms > 1 || cancels > 1 || tries > 1) {
 			fail("effect_applied_twice", counts)
 		}
 		if confirms > 0 && cancels > 0 {
 			fail("confirm_and_cancel_both_applied", counts)
 		}
-		if w, ok := want[seq]; ok {
+		twice := map[string]string{"PC": "1/2/0", "PCC": "1/2/0", "PR": "1/0/2", "PRR": "1/0/2"}
+		if w, ok := want[seq]; ok || v.twoTx {
+			if v.twoTx {
+				// the two transactions of the one delivery that applies the phase both take effect, no delivery after it does
+				w.counts = twice[seq]
+				w.answers = []string{"P:ok"}
+				for _, ph := range seq[1:] {
+					if ph == 'C' {
+						w.answers = append(w.answers, done)
+					} else {
+						w.answers = append(w.answers, undone)
+					}
+				}
+			}
 			if counts != w.counts {
 				fail("business_effects", fmt.Sprintf("tries/confirms/cancels %s, expected %s", counts, w.counts))
 			}
@@ -148,7 +191,7 @@ func runC06UnderRM(c *Ctx) {
 			fail("fence_driver_left_a_transaction_open", fmt.Sprint(open))
 		}
 		c.Out.Case(cid, "C06", "skip", "skip")
-		c.Out.Oracle(cid, class == "", class, fmt.Sprintf("%s | seq=%s answers=%v counts=%s", detail, seq, answers, counts))
+		c.Out.Oracle(cid, class == "", class, fmt.Sprintf("%s | seq=%s two-transactions=%v error-as-text=%v answers=%v counts=%s", detail, seq, v.twoTx, v.asText, answers, counts))
 		c.Out.Tag(cid, "nontrivial=1")
 		c.Out.Count("fence-driver.under-rm")
 	}
